@@ -185,6 +185,10 @@ func (m *Machine) runUnit(l *Loaded, u *Unit, sampleDir string, rng *rand.Rand) 
 		m.sol.recorder = nil
 	}
 	deadline := time.Duration(u.TimeoutMs) * time.Millisecond
+	m.deadline = time.Time{}
+	if deadline > 0 {
+		m.deadline = t0.Add(deadline)
+	}
 	timedOut := false
 	defer func() {
 		if r := recover(); r != nil {
